@@ -38,6 +38,20 @@ Proof.
 Qed.
 Print Assumptions C28_cass_parse_codec.
 
+(* "same value codec", behaviourally: at every protocol version, serialising / deserialising with the parsed class ends, through
+   its top-level FrozenType / ReversedType wrappers, at the class of the unwrapped type, called with the SAME protocol version,
+   and that class has the codec structure of the type; serial_size() is answered by the same class *)
+Theorem C28_codec_route : forall t des pv, wf t = true ->
+  exists c c', cass_parse (spec_cass_print t) = POk c /\ route des c pv = (c', pv) /\ size_route c = c' /\
+               route des c' pv = (c', pv) /\ cls_codec c' = Some (codec t).
+Proof.
+  intros t des pv Hwf. exists (parsed t), (parsed (unwrap t)).
+  split; [apply cass_parse_spec; assumption|]. split; [apply route_parsed|]. split; [apply size_route_parsed|]. split.
+  - rewrite route_parsed. f_equal. f_equal. clear. induction t using ty_ind2; simpl; auto.
+  - rewrite parsed_codec. f_equal. apply codec_unwrap.
+Qed.
+Print Assumptions C28_codec_route.
+
 (* second clause, from the parsed hierarchy on: printing the python list that a type's CQL name denotes gives back the
    canonical CQL name (", " separators), with or without frozen markers.  The string -> list direction (re.Scanner +
    ast.literal_eval) is tied by correspondence only. *)
@@ -73,6 +87,15 @@ Theorem C28_strip_frozen_string : forall sep t, sep_ok sep -> wf_cql t = true ->
   strip_frozen (cql_name_gen (lit "vector") sep true t) = Some (cql_name_gen (lit "vector") comma_sp false t).
 Proof. exact strip_frozen_name. Qed.
 Print Assumptions C28_strip_frozen_string.
+
+Example C28_nonvacuous_nested_frozen :
+  let t := TMap (TFrozen (TFrozen (TList (TSimple SInt)))) (TFrozen (TTuple [TFrozen (TUdt (lit "ks") (lit "u") [] [])])) in
+  wf_cql t = true /\
+  show (cql_name_gen (lit "vector") comma_sp true t) = "map<frozen<frozen<list<int>>>, frozen<frozen<tuple<frozen<frozen<u>>>>>>"%string /\
+  option_map show (strip_frozen (cql_name_gen (lit "vector") comma_sp true t)) = Some "map<list<int>, tuple<u>>"%string /\
+  route true (CApp (lit "ReversedType") [CApp (lit "FrozenType") [CApp (lit "ListType") [CReg (lit "Int32Type")] [None]] [None]] [None]) 2%N
+    = (CApp (lit "ListType") [CReg (lit "Int32Type")] [None], 2%N).
+Proof. vm_compute. repeat split; reflexivity. Qed.
 
 Example C28_nonvacuous_quoted :
   let u n := TUdt (lit "ks") n [] [] in
